@@ -635,5 +635,59 @@ def sim_log(prog, root, may_exec):
     return log
 
 
+def references(prog):
+    """function index -> list of (container kind, container index, statement) referencing it"""
+    out = {}
+    for (ck, ci, _m, body) in all_bodies(prog):
+        for st in body:
+            for fi in stmt_targets(st):
+                out.setdefault(fi, []).append((ck, ci, st))
+            for a in inline_args(st):
+                if a[0] == "icall":
+                    out.setdefault(a[1], []).append((ck, ci, ["call", a[1], a[2], []]))
+    return out
+
+
+def keep_container(prog, path):
+    for (ck, ci, _m, body) in all_bodies(prog):
+        for st in body:
+            if st[0] == "keep" and st[1] == path:
+                return (ck, ci)
+    return None
+
+
+def context_owner(prog, root, path):
+    """For a keep statement with run-time arguments at `path`: the function whose closure bounds everything its
+    call-site context can depend on (cone item 7), or None when that cannot be bounded (conservative).
+    Walk up from the containing function while its own arguments are only known at run time."""
+    cont = keep_container(prog, path)
+    if cont is None or cont[0] != "f":
+        return None
+    refs = references(prog)
+    cur = cont[1]
+    for _ in range(len(prog["funcs"]) + 1):
+        f = prog["funcs"][cur]
+        if is_data(f) or cur == root:
+            return cur
+        r = refs.get(cur, [])
+        if len(r) != 1:
+            return None
+        (ck, ci, st) = r[0]
+        if st[0] == "keep":
+            if all(a[0] in ("lit", "omit") for a in st[4]):
+                return cur
+        elif st[0] == "call":
+            explicit = [a for a in (st[3] if len(st) > 3 else []) if a[0] != "omit"]
+            if not explicit and all(d != NO for _, d in f["params"]):
+                return cur
+        elif st[0] == "ho":
+            if all(d != NO for _, d in f["params"]):
+                return cur
+        if ck != "f":
+            return None
+        cur = ci
+    return None
+
+
 def keep_sites_in(prog, fi):
     return [st[1] for st in prog["funcs"][fi]["body"] if st[0] == "keep"]
